@@ -215,6 +215,9 @@ func (st *State) elab(env *Env, e *Expr) (SVal, types.Type) {
 				if gv, ok := g.(interface{ Type() types.Type }); ok {
 					if pt, ok := gv.Type().(*types.Pointer); ok {
 						a := &AddrV{Kind: "global", Key: "G|" + env.pkg + "." + e.Name, Type: pt.Elem()}
+						if c, ok := globalConst(st, a); ok {
+							return c, pt.Elem()
+						}
 						return st.load(st.view(env), a), pt.Elem()
 					}
 				}
@@ -264,6 +267,18 @@ func (st *State) elab(env *Env, e *Expr) (SVal, types.Type) {
 		for _, p := range e.Pats {
 			pv, _ := st.elab(n, p)
 			pats = append(pats, st.scalar(pv))
+		}
+		if e.Kind == "forall" && len(e.AltPats) > 0 {
+			groups := [][]*Term{pats}
+			for _, g := range e.AltPats {
+				var ts []*Term
+				for _, p := range g {
+					pv, _ := st.elab(n, p)
+					ts = append(ts, st.scalar(pv))
+				}
+				groups = append(groups, ts)
+			}
+			return ForallAlt(vars, body, groups), tBool
 		}
 		if e.Kind == "forall" {
 			return Forall(vars, body, pats...), tBool
